@@ -1447,8 +1447,19 @@ class PX:
                 except KeyError:
                     pass
             try:
-                return self.repo.te.getattr(b, attr, fr.mod, e or ast.Pass())
+                got_ = self.repo.te.getattr(b, attr, fr.mod, e or ast.Pass())
+                if isinstance(got_, TypeRef) and isinstance(b, ClassRef) and b.is_enum and attr.isupper():
+                    raise AnalysisError("unknown enumeration constant")
+                return got_
             except AnalysisError:
+                # a constant-style name that is no member of a repository enumeration whose members are all known: AttributeError
+                if isinstance(b, ClassRef) and b.is_enum and attr.isupper():
+                    try:
+                        mem = b.members()
+                    except Exception:
+                        mem = None
+                    if mem and attr not in mem:
+                        raise Exc("AttributeError", (attr,), origin=_text(e) if e is not None else attr)
                 return Sym(f"{_short(b)}.{attr}")
         if isinstance(b, Member):
             if attr == "name":
